@@ -48,6 +48,11 @@ type ctl struct {
 
 	// scheduled mode: WriteBytes of a data page parks the calling goroutine.
 	park func(phase string) // nil = no parking
+
+	// meta-writer mode (metawriters.go): every PutUint64 into the meta page calls metaPark BEFORE the
+	// store (offset, value); metaRaw is the unwrapped meta page (read-only use by the harness)
+	metaPark func(off int, v uint64)
+	metaRaw  page.MappedPage
 }
 
 func newCtl(root string) *ctl { return &ctl{root: root, hw: map[string]int{}} }
@@ -145,6 +150,9 @@ func (f *wfactory) wrap(p page.MappedPage) page.MappedPage {
 	if p == nil {
 		return nil
 	}
+	if f.kind == "meta" {
+		f.c.metaRaw = p
+	}
 	base := filepath.Base(p.FilePath())
 	id, _ := strconv.ParseInt(strings.TrimSuffix(base, filepath.Ext(base)), 10, 64)
 	return &wpage{MappedPage: p, kind: f.kind, id: id, c: f.c, rel: filepath.Join(f.kind, base)}
@@ -224,6 +232,9 @@ func (p *wpage) WriteBytes(data []byte, off int) {
 }
 
 func (p *wpage) PutUint64(v uint64, off int) {
+	if p.kind == "meta" && p.c.metaPark != nil {
+		p.c.metaPark(off, v)
+	}
 	p.MappedPage.PutUint64(v, off)
 	p.c.note(p, off, 8)
 	p.c.afterStore(1)
